@@ -103,7 +103,14 @@ def check_listing(res, text, v=None):
         out = []
         err = None
         try:
-            for n in R.parser.list_names(text):
+            it = R.parser.list_names(text)
+            if attempt == 2:
+                # the second listing is consumed only after another, complete, listing was made on the same parser
+                if list(R.parser.list_names('zz + qq')) != ['zz', 'qq']:
+                    res.violation('listing:interleaved-other', 'list_names of a fixed text differs while another listing is pending',
+                                  {'text': text, 'expected': "['zz', 'qq']", 'observed': 'something else'})
+                    return None
+            for n in it:
                 out.append(n)
         except PE as e:
             err = e
